@@ -358,6 +358,16 @@ def _iter(I, args, kwargs):
     return SList(I.iterate(args[0]))
 
 
+import collections as _collections
+
+
+@model(_collections.deque, "collections.deque(iterable): a double-ended queue of known length (modelled as a list)")
+def _deque(I, args, kwargs):
+    d = SList(list(I.iterate(args[0])) if args else [])
+    d.is_deque = True
+    return d
+
+
 import itertools as _itertools
 
 
@@ -781,6 +791,18 @@ def call_method(I, recv, name, args, kwargs):
             return recv.items.pop(*[a for a in args if isinstance(a, int)])
         if name == "copy":
             return SList(recv.items)
+        # collections.deque is modelled as a list (see the model of the constructor): its two extra methods
+        if name == "popleft" and getattr(recv, "is_deque", False):
+            if not recv.items:
+                I.raise_(IndexError, "pop from an empty deque")
+            return recv.items.pop(0)
+        if name == "appendleft" and getattr(recv, "is_deque", False):
+            recv.items.insert(0, args[0])
+            return None
+        if name == "extendleft" and getattr(recv, "is_deque", False):
+            for x in I.iterate(args[0]):
+                recv.items.insert(0, x)
+            return None
         if name == "index":
             for i, x in enumerate(recv.items):
                 e = I.py_eq(args[0], x)
